@@ -163,12 +163,17 @@ func init() {
 			}
 			r = append(r, &Instance{Pkg: fsm, Func: "VH_C01_step", Args: []int64{6, 1, 1, -1, 1}, Unwind: 32})
 			r = append(r, &Instance{Pkg: fsm, Func: "VH_C01_bigrange", Args: []int64{3, 1536}, Unwind: 32})
+			for k1 := int64(0); k1 <= 2; k1++ {
+				for k2 := int64(0); k2 <= 2; k2++ {
+					r = append(r, &Instance{Pkg: fsm, Func: "VH_C01_pair", Args: []int64{k1, k2, 1}, Unwind: 32})
+				}
+			}
 			r = append(r, &Instance{Pkg: fsm, Func: "VH_C01_vacuity", Args: []int64{2, 2, 1}, Expect: "violated"})
 			return r
 		},
-		Covers: map[string][]string{"VH_C01_reads": {"end"}, "VH_C01_step": {"end"}, "VH_C01_bigrange": {"end"}},
+		Covers: map[string][]string{"VH_C01_reads": {"end"}, "VH_C01_step": {"end"}, "VH_C01_bigrange": {"end"}, "VH_C01_pair": {"end"}},
 		Bounds: map[string]string{
-			"quick":    "pre-state: 0..2 pairs (0..1 for two/three-key commands), keys 1..2 arbitrary bytes, values 1 arbitrary byte, both bookkeeping keys present with arbitrary 64-bit values; operation keys/bounds 0..2 bytes incl. empty, wildcard and inverted ranges; all flag combinations; log index 1..64 (one varint class) plus one instance with any 64-bit index; batches/sequences of 2 elements; a range delete (all flag combinations) over three pairs with 1.5 MiB values, i.e. more than one 4 MiB read chunk; unwind 32",
+			"quick":    "pre-state: 0..2 pairs (0..1 for two/three-key commands), keys 1..2 arbitrary bytes, values 1 arbitrary byte, both bookkeeping keys present with arbitrary 64-bit values; operation keys/bounds 0..2 bytes incl. empty, wildcard and inverted ranges; all flag combinations; log index 1..64 (one varint class) plus one instance with any 64-bit index; batches/sequences of 2 elements; every ordered pair of plain commands (put / delete / delete range, all flags, 1-byte keys) delivered in one apply call from 0..1 pairs; a range delete (all flag combinations) over three pairs with 1.5 MiB values, i.e. more than one 4 MiB read chunk; unwind 32",
 			"thorough": "as quick with values of 0..1 bytes, plus 0..3 pairs (1-byte values) for the reads and for put / delete / delete range",
 		},
 		Outside: "larger tables, keys longer than 2 bytes (key-length effects are C12's), values of other sizes than 1 byte and 1.5 MiB, Pebble internals (model M1: sorted map with batches/snapshots/iterators, bytewise order; inverted DeleteRange spans are no-ops)",
@@ -370,6 +375,7 @@ func init() {
 				{Pkg: rs, Func: "VH_C16_txn", Args: []int64{3}, Unwind: 64},
 				{Pkg: rs, Func: "VH_C16_txn", Args: []int64{4}, Unwind: 64},
 				{Pkg: rs, Func: "VH_C16_txn", Args: []int64{5}, Unwind: 64},
+				{Pkg: rs, Func: "VH_C16_txn", Args: []int64{6}, Unwind: 64},
 				{Pkg: rs, Func: "VH_C16_tables", Unwind: 64},
 				{Pkg: rs, Func: "VH_C16_vacuity", Expect: "violated"},
 			}
